@@ -88,25 +88,34 @@ SILENCE = [
 ]
 
 
+def _mutant_job(args):
+    pid, (mid, pids, rel, old, new, desc) = args
+    with Scratch() as sc:
+        if not sc.replace(rel, old, new, count=1 if mid != 'rename-private-helper' else 99):
+            return {'mutant': mid, 'status': 'skipped', 'note': 'anchor text not found in the current tree'}
+        c = run_rule(pid, sc.dir)
+        bad = [o for o in c.obligations if o['status'] != 'ok']
+        facts_fail = [o for o in bad if o['rule'] == 'facts']
+        if facts_fail and pid != 'C20':
+            return {'mutant': mid, 'status': 'skipped', 'note': 'mutant does not compile'}
+        return {'mutant': mid, 'description': desc, 'status': 'reported' if bad else 'MISSED',
+                'reported_keys': [o['key'] for o in bad][:4]}
+
+
+def _pmap(fn, jobs):
+    """Scratch analyses are independent: run them on several cores (cargo itself is serialised by the
+    fact-cache lock)."""
+    if len(jobs) <= 1 or os.environ.get('VERIF_SELFTEST_SERIAL'):
+        return [fn(j) for j in jobs]
+    import concurrent.futures as cf
+    import multiprocessing as mp
+    with cf.ProcessPoolExecutor(max_workers=min(8, len(jobs)), mp_context=mp.get_context('fork')) as ex:
+        return list(ex.map(fn, jobs))
+
+
 def run_mutants(pid, chk=None):
     """-> list of result dicts for the mutants that `pid` must report."""
-    out = []
-    for mid, pids, rel, old, new, desc in MUTANTS:
-        if pid not in pids:
-            continue
-        with Scratch() as sc:
-            if not sc.replace(rel, old, new, count=1 if mid != 'rename-private-helper' else 99):
-                out.append({'mutant': mid, 'status': 'skipped', 'note': 'anchor text not found in the current tree'})
-                continue
-            c = run_rule(pid, sc.dir)
-            bad = [o for o in c.obligations if o['status'] != 'ok']
-            facts_fail = [o for o in bad if o['rule'] == 'facts']
-            if facts_fail and pid != 'C20':
-                out.append({'mutant': mid, 'status': 'skipped', 'note': 'mutant does not compile'})
-                continue
-            out.append({'mutant': mid, 'description': desc, 'status': 'reported' if bad else 'MISSED',
-                        'reported_keys': [o['key'] for o in bad][:4]})
-    return out
+    return _pmap(_mutant_job, [(pid, m) for m in MUTANTS if pid in m[1]])
 
 
 # rewrites that are equal over the reals but not in IEEE arithmetic are not "behaviour preserving"
@@ -115,24 +124,79 @@ def run_mutants(pid, chk=None):
 SILENCE_EXCEPT = {'sem-form': {'C11'}}
 
 
+def _silence_job(args):
+    pid, (sid, rel, old, new, desc) = args
+    if pid in SILENCE_EXCEPT.get(sid, ()):
+        return {'rewrite': sid, 'status': 'skipped', 'note': 'equal over the reals only; not behaviour-preserving at the IEEE level this property speaks about'}
+    with Scratch() as sc:
+        if not sc.replace(rel, old, new, count=99 if sid == 'rename-private-helper' else 1):
+            return {'rewrite': sid, 'status': 'skipped', 'note': 'anchor text not found in the current tree'}
+        c = run_rule(pid, sc.dir)
+        bad = [o for o in c.obligations if o['status'] != 'ok']
+        if any(o['rule'] == 'facts' for o in bad) and pid != 'C20':
+            return {'rewrite': sid, 'status': 'skipped', 'note': 'rewrite does not compile'}
+        return {'rewrite': sid, 'description': desc, 'status': 'silent' if not bad else 'ALARM',
+                'alarm_keys': [(o['key'], (o['detail'] or '')[:160]) for o in bad][:3]}
+
+
 def run_silence(pid):
+    return _pmap(_silence_job, [(pid, r) for r in SILENCE])
+
+
+# ---------------------------------------------------------------------------------------------------
+# recorded patches: seeded/<id>-*/patch.diff were written by independent sub-agents to break property <id>
+# (must be reported by <id>); refactors/*/refactor_*.diff were written by independent sub-agents as strictly
+# behaviour-preserving rewrites (no property may alarm).  Both are replayed on scratch copies.
+
+VERIF = os.path.dirname(os.path.dirname(os.path.abspath(__file__)))
+
+
+def _patch_files(patch):
     out = []
-    for sid, rel, old, new, desc in SILENCE:
-        if pid in SILENCE_EXCEPT.get(sid, ()):
-            out.append({'rewrite': sid, 'status': 'skipped', 'note': 'equal over the reals only; not behaviour-preserving at the IEEE level this property speaks about'})
-            continue
-        with Scratch() as sc:
-            if not sc.replace(rel, old, new, count=99 if sid == 'rename-private-helper' else 1):
-                out.append({'rewrite': sid, 'status': 'skipped', 'note': 'anchor text not found in the current tree'})
-                continue
-            c = run_rule(pid, sc.dir)
-            bad = [o for o in c.obligations if o['status'] != 'ok']
-            if any(o['rule'] == 'facts' for o in bad) and pid != 'C20':
-                out.append({'rewrite': sid, 'status': 'skipped', 'note': 'rewrite does not compile'})
-                continue
-            out.append({'rewrite': sid, 'description': desc, 'status': 'silent' if not bad else 'ALARM',
-                        'alarm_keys': [(o['key'], (o['detail'] or '')[:160]) for o in bad][:3]})
+    with open(patch) as fh:
+        for line in fh:
+            if line.startswith('+++ b/'):
+                out.append(line[6:].strip())
     return out
+
+
+def _anchor_files(pid):
+    import json
+    with open(os.path.join(VERIF, 'properties.jsonl')) as fh:
+        for line in fh:
+            d = json.loads(line)
+            if d['id'] == pid:
+                return set(d.get('anchors', {}).get('files', []))
+    return set()
+
+
+def _patch_job(args):
+    pid, kind, patch = args
+    name = os.path.relpath(patch, VERIF)
+    with Scratch() as sc:
+        ok, log = sc.apply_patch(patch)
+        if not ok:
+            return {'patch': name, 'kind': kind, 'status': 'skipped', 'note': 'patch no longer applies to the current tree'}
+        c = run_rule(pid, sc.dir)
+        bad = [o for o in c.obligations if o['status'] != 'ok']
+        if any(o['rule'] == 'facts' for o in bad) and pid != 'C20':
+            return {'patch': name, 'kind': kind, 'status': 'skipped', 'note': 'patched tree does not compile'}
+        if kind == 'seed':
+            return {'patch': name, 'kind': kind, 'status': 'reported' if bad else 'MISSED', 'keys': [o['key'] for o in bad][:4]}
+        return {'patch': name, 'kind': kind, 'status': 'silent' if not bad else 'ALARM',
+                'keys': [(o['key'], (o['detail'] or '')[:160]) for o in bad][:3]}
+
+
+def run_patches(pid):
+    import glob
+    jobs = []
+    for patch in sorted(glob.glob(os.path.join(VERIF, 'seeded', pid + '-*', 'patch.diff'))):
+        jobs.append((pid, 'seed', patch))
+    files = _anchor_files(pid)
+    for patch in sorted(glob.glob(os.path.join(VERIF, 'refactors', '*', '*.diff'))):
+        if files & set(_patch_files(patch)):
+            jobs.append((pid, 'refactor', patch))
+    return _pmap(_patch_job, jobs)
 
 
 if __name__ == '__main__':
@@ -145,4 +209,7 @@ if __name__ == '__main__':
             print(json.dumps(r)[:300])
     if what in ('both', 'silence'):
         for r in run_silence(pid):
+            print(json.dumps(r)[:400])
+    if what in ('both', 'patches'):
+        for r in run_patches(pid):
             print(json.dumps(r)[:400])
